@@ -249,7 +249,7 @@ def run_case(case):
                     bad("mixed-call-sent", rpc, {"client": kind, "meta": t["meta"], "server_calls": o["server_calls"]}, **mech)
                 if not o.get("request_unchanged", True):
                     bad("mixed-call-mutated-request", rpc, {"client": kind, "meta": t["meta"]}, **mech)
-    return {"verdict": "violated" if viol else "held", "violations": viol[:20],
+    return {"verdict": "violated" if viol else "held", "violations": pipeline.diverse(viol, 40),
             "evaluations": counters.get("equivalence_pairs", 0) + counters.get("mixed_calls", 0),
             "nontrivial_sigs": sorted(sigs), "counters": counters, "sample": sample or {}}
 
